@@ -132,9 +132,25 @@ def main():
     if args and args[0] == "--replay":
         path = args[1]
         print(open(path, encoding="utf-8").read())
-        m = re.search(r"^replay-cmd: (.*)$", open(path, encoding="utf-8").read(), re.M)
+        txt = open(path, encoding="utf-8").read()
+        m = re.search(r"^replay-cmd: (.*)$", txt, re.M)
         if m:
             sys.exit(subprocess.call(m.group(1), shell=True, cwd=VERIF))
+        # a Verus obligation: re-derive it from /repo's current tree and report whether it fails again
+        mo = re.search(r"^obligation: (.*)$", txt, re.M)
+        mp = re.search(r"^property: (\S+)$", txt, re.M)
+        if mo and mp:
+            res = verus_run.run(REPO, threads=8)
+            again = [f for f in res.failures if f["obligation"] == mo.group(1).strip()]
+            print("--- replay on /repo's current working tree ---")
+            if again:
+                print("obligation %s fails again: %s" % (mo.group(1).strip(), again[0]["message"]))
+                print("VIOLATION property=%s replay=%s no-failing-input-found" % (mp.group(1), path))
+                sys.exit(1)
+            if res.undecided:
+                print("undecided: %s" % res.undecided[0]["reason"])
+                sys.exit(2)
+            print("obligation %s is discharged on the current tree" % mo.group(1).strip())
         sys.exit(0)
     if not args:
         print(__doc__)
